@@ -156,19 +156,59 @@ def unencapsulate(trees: dict[str, ast.Module]) -> dict[str, list[str]]:
                     )
                     if not ok:
                         continue
-                # the backing name must belong to this hierarchy only
                 cone = _cone(classes, cname)
-                clash = any(
-                    k not in cone and _defines_or_assigns(c2, y)
-                    for k, ds in classes.items() for _, c2 in ds
-                ) or any(
+                if any(
                     isinstance(m, (ast.FunctionDef, ast.ClassDef)) and m.name == y
                     for k in cone for _, c2 in classes.get(k, []) for m in c2.body
-                )
-                if clash:
+                ):
                     continue
-                cls.body = [st for st in cls.body if st is not g and st is not s] or [ast.Pass()]
-                touched = _rename_attr(trees, y, x) | {rel}
+                # the same property over the same backing field repeated in
+                # other classes of the hierarchy goes with it
+                def _drop_twins():
+                    for k in cone:
+                        for _r2, c2 in classes.get(k, []):
+                            if c2 is cls:
+                                continue
+                            keep = []
+                            for st2 in c2.body:
+                                if isinstance(st2, ast.FunctionDef) and st2.name == x and (_deco(st2) == ["property"] or _deco(st2) == [f"{x}.setter"]):
+                                    b2 = _body(st2)
+                                    a2 = st2.args.posonlyargs + st2.args.args
+                                    triv_get = (
+                                        _deco(st2) == ["property"] and len(b2) == 1 and isinstance(b2[0], ast.Return) and isinstance(b2[0].value, ast.Attribute)
+                                        and b2[0].value.attr == y and isinstance(b2[0].value.value, ast.Name) and a2 and b2[0].value.value.id == a2[0].arg
+                                    )
+                                    triv_set = (
+                                        _deco(st2) == [f"{x}.setter"] and len(b2) == 1 and isinstance(b2[0], ast.Assign) and len(b2[0].targets) == 1 and len(a2) == 2
+                                        and isinstance(b2[0].targets[0], ast.Attribute) and b2[0].targets[0].attr == y
+                                        and isinstance(b2[0].value, ast.Name) and b2[0].value.id == a2[1].arg
+                                    )
+                                    if triv_get or triv_set:
+                                        continue
+                                keep.append(st2)
+                            c2.body = keep or [ast.Pass()]
+
+                if y.startswith("_"):
+                    _drop_twins()
+                    # a private backing field is only touched inside the
+                    # hierarchy: renamed there (whatever the receiver is called:
+                    # `self._y`, `other._y` in __eq__), nowhere else - another
+                    # class may use the same private name for its own field
+                    cls.body = [st for st in cls.body if st is not g and st is not s] or [ast.Pass()]
+                    touched = {rel}
+                    for k in cone:
+                        for r2, c2 in classes.get(k, []):
+                            sub = {r2: ast.Module(body=[c2], type_ignores=[])}
+                            if _rename_attr(sub, y, x):
+                                touched.add(r2)
+                else:
+                    # a public new name (the attribute was renamed, the old name
+                    # kept as an alias): callers anywhere may use it, so it must
+                    # be unambiguous in the package
+                    if any(k not in cone and _defines_or_assigns(c2, y) for k, ds in classes.items() for _, c2 in ds):
+                        continue
+                    cls.body = [st for st in cls.body if st is not g and st is not s] or [ast.Pass()]
+                    touched = _rename_attr(trees, y, x) | {rel}
                 for r2 in touched:
                     notes.setdefault(r2, [])
                 notes[rel].append(f"{cname}.{x}: trivial property over `{y}` folded back into the attribute `{x}`")
@@ -506,3 +546,44 @@ def pull_down_new_bases(trees: dict[str, ast.Module]) -> dict[str, list[str]]:
             trees[rel_b].body = [st for st in trees[rel_b].body if st is not b]
             notes.setdefault(rel_b, []).append(f"{bname}: no longer used after pull-down, dropped")
     return notes
+
+
+
+def import_names_from(trees: dict[str, ast.Module], rel_to: str, rel_from: str, used: set[str], skip: set[str] = frozenset()) -> int:
+    """Makes the module-level names of ``rel_from`` that ``used`` mentions and
+    ``rel_to`` does not bind available in ``rel_to`` (imports copied, own
+    definitions imported from the defining module).  Returns how many."""
+    tc, tb = trees[rel_to], trees[rel_from]
+    have, theirs = _top_bindings(tc), _top_bindings(tb)
+    at = 0
+    for i, st in enumerate(tc.body):
+        if isinstance(st, (ast.Import, ast.ImportFrom)) or (i == 0 and isinstance(st, ast.Expr)):
+            at = i + 1
+    bmod = _module_of(rel_from)
+    n = 0
+    for name in sorted(used):
+        if name in have or name not in theirs or name in skip:
+            continue
+        src = theirs[name]
+        if isinstance(src, ast.Import):
+            a = next(a for a in src.names if (a.asname or a.name.split(".")[0]) == name)
+            node = ast.Import(names=[ast.alias(name=a.name, asname=a.asname)])
+        elif isinstance(src, ast.ImportFrom):
+            a = next(a for a in src.names if (a.asname or a.name) == name)
+            if src.level:
+                parts = rel_from.split("/")[:-1]
+                if src.level > 1:
+                    parts = parts[: len(parts) - (src.level - 1)]
+                mod = ".".join(parts) + ("." + src.module if src.module else "")
+            else:
+                mod = src.module
+            node = ast.ImportFrom(module=mod, names=[ast.alias(name=a.name, asname=a.asname)], level=0)
+        else:
+            node = ast.ImportFrom(module=bmod, names=[ast.alias(name=name, asname=None)], level=0)
+        like = tc.body[at - 1] if at else tc.body[0]
+        for x in ast.walk(node):
+            ast.copy_location(x, like)
+        tc.body.insert(at, node)
+        at += 1
+        n += 1
+    return n
